@@ -15,12 +15,14 @@ Section Handles.
     destruct (hd_node f) as [c|]; [|stay].
     destruct (file_of s c) as [[[[d k] i] m]|] eqn:E; [|stay].
     destruct (negb (has (hd_mode f) OpenWrite)); [stay|].
+    destruct b as [|b0 b']; [stay|].
     cbn [fst]. apply step_ok_with_heap. exact (Inv_heap_set_data _ c d k i m _ IH (file_of_get c d k i m E)).
   Qed.
 
   Lemma f_write_at_ok b off : step_ok s (fst (f_write_at s v f b off)).
   Proof.
     unfold f_write_at. destruct (Z.ltb off 0); [stay|].
+    destruct b as [|b0 b']; [stay|].
     destruct (hd_name f); [stay|].
     destruct (hd_node f) as [c|]; [|stay].
     destruct (file_of s c) as [[[[d k] i] m]|] eqn:E; [|stay].
@@ -31,8 +33,8 @@ Section Handles.
   Lemma f_truncate_ok size : step_ok s (fst (f_truncate s v f size)).
   Proof.
     unfold f_truncate. destruct (hd_name f); [stay|].
-    destruct (Z.ltb size 0); [stay|].
     destruct (hd_node f) as [c|]; [|stay].
+    destruct (Z.ltb size 0); [stay|].
     destruct (file_of s c) as [[[[d k] i] m]|] eqn:E; [|stay].
     destruct (negb (has (hd_mode f) OpenWrite)); [stay|].
     cbn [fst]. apply step_ok_with_heap. exact (Inv_heap_set_data _ c d k i m _ IH (file_of_get c d k i m E)).
